@@ -1375,6 +1375,11 @@ impl Arena {
           return Ok(allocated);
         }
         Err(current) => {
+          // The predecessor changed, so the segment we marked cannot be unlinked through it. Nobody
+          // else will ever unlink it (others only wait for us), so put its word back - no other
+          // thread modifies a marked segment - and search again.
+          next_node.store(next_node_val, Ordering::Release);
+
           let (node_size, _) = decode_segment_node(current);
           if node_size == REMOVED_SEGMENT_NODE {
             // the current node is marked as removed, wait other thread to make progress.
@@ -1499,6 +1504,11 @@ impl Arena {
           return Ok(allocated);
         }
         Err(current) => {
+          // The sentinel changed (a larger segment was inserted in front), so the head we marked
+          // cannot be unlinked through it. Nobody else will ever unlink it (others only wait for
+          // us), so put its word back - no other thread modifies a marked segment - and retry.
+          head.store(head_node_size_and_next_node_offset, Ordering::Release);
+
           let (node_size, _) = decode_segment_node(current);
           if node_size == REMOVED_SEGMENT_NODE {
             // The current head is removed from the list, wait other thread to make progress.
@@ -1582,6 +1592,11 @@ impl Arena {
           continue;
         }
         Err(current) => {
+          // The sentinel changed (a larger segment was inserted in front), so the head we marked
+          // cannot be unlinked through it. Nobody else will ever unlink it (others only wait for
+          // us), so put its word back - no other thread modifies a marked segment - and retry.
+          head.store(head_node_size_and_next_node_offset, Ordering::Release);
+
           let (node_size, _) = decode_segment_node(current);
           if node_size == REMOVED_SEGMENT_NODE {
             // The current head is removed from the list, wait other thread to make progress.
